@@ -235,6 +235,29 @@ class WsgiMethodContext(HttpMethodContext):
     HttpTransportContext = WsgiTransportContext
 
 
+class _FinalizingIterable(object):
+    """Hands over the response body, then runs the finalizer exactly once: when
+    the body is exhausted or when the WSGI server calls ``close()`` (e.g.
+    because the client went away), whichever comes first."""
+
+    def __init__(self, out_string, finalize):
+        self.out_string = out_string
+        self.finalize = finalize
+        self.finalized = False
+
+    def __iter__(self):
+        try:
+            for chunk in self.out_string:
+                yield chunk
+        finally:
+            self.close()
+
+    def close(self):
+        if not self.finalized:
+            self.finalized = True
+            self.finalize()
+
+
 class WsgiApplication(HttpBase):
     """A `PEP-3333 <http://www.python.org/dev/peps/pep-3333>`_
     compliant callable class.
@@ -406,7 +429,8 @@ class WsgiApplication(HttpBase):
             # Report but ignore any exceptions from auxiliary methods.
             logger.exception(e)
 
-        return chain(p_ctx.out_string, self.__finalize(p_ctx))
+        return _FinalizingIterable(p_ctx.out_string,
+                                              lambda: self.__finalize(p_ctx))
 
     def handle_rpc(self, req_env, start_response):
         initial_ctx = WsgiMethodContext(self, req_env,
@@ -504,7 +528,8 @@ class WsgiApplication(HttpBase):
         start_response(p_ctx.transport.resp_code,
                                 _gen_http_headers(p_ctx.transport.resp_headers))
 
-        retval = chain(p_ctx.out_string, self.__finalize(p_ctx))
+        retval = _FinalizingIterable(p_ctx.out_string,
+                                              lambda: self.__finalize(p_ctx))
 
         try:
             process_contexts(self, others, p_ctx, error=None)
